@@ -1,9 +1,12 @@
 (* C03 — clock domains, resets and control inserters (model: Model/Xfrm.v on Stmt.v / Process.v; proofs: Proofs/XfrmP.v).
    `step D e cur` is the engine's reaction to one testbench event (a set of simultaneous writes, e.g. to several clocks
-   and resets); every theorem is about an arbitrary design, state and event, hence about every step of every event
-   sequence.  The `_partial` theorems are proved for one activation of one domain process in an arbitrary slot state
-   (so at every activation of every event sequence); what is missing is their lifting to equality of whole-design traces,
-   which needs extensionality of exec_rtl in its `next` argument (envs are functions and no axiom is used). *)
+   and resets); `state_after (step D) evs cur` is the state after a whole event sequence.
+   Trace-level theorems are refinements: the run of the TRANSFORMED design equals (pointwise, `eqe`; environments are
+   functions and no extensionality axiom is used) the spec run `step_ctl en_of rs_of` of the ORIGINAL design, in which
+   a sync process of domain d executes `sync_ctl` with the explicit enable en_of d and extra reset rs_of d.
+   `_process` theorems are the one-activation facts they are lifted from.  Still partial (named `_partial` or stated
+   in the comment of the theorem): `collector_ok` is a hypothesis; controls have shape unsigned(1); the renamer spec
+   excludes merging two domains of one fragment; memories have process-level theorems only. *)
 From Coq Require Import ZArith List Bool Lia.
 From V.Model Require Import Bits Shape Ast Denote PyRTL PyEval Stmt Process Xfrm.
 From V.Proofs Require Import XfrmP.
@@ -107,12 +110,12 @@ Example C03_chunks_example : chunks 8 108 = [(2, Some 4); (5, Some 7)] /\ chunks
 Proof. split; reflexivity. Qed.
 
 (* ---------- ResetInserter ---------- *)
-Theorem C03_reset_inserter_spec_partial tab ss c rst st :
+Theorem C03_reset_inserter_process tab ss c rst st :
   shape_of c = Sh 1 false -> tab_ok tab -> collector_ok tab ss ->
   forall i, s_next (sync_process tab (ss ++ [ctl_switch c (reset_stmts tab ss)]) rst st) i
           = s_next (sync_ctl tab ss rst true (ctl_on (s_curr st) c) st) i.
 Proof. exact (reset_process tab ss c rst st). Qed.
-Print Assumptions C03_reset_inserter_spec_partial.
+Print Assumptions C03_reset_inserter_process.
 
 Example C03_reset_inserter_hyps : tab_ok ex_tab /\ collector_ok ex_tab ex_ss /\
   reset_stmts ex_tab ex_ss = [SAssign (ESig 2 s4) (EConst 3 s4)].
@@ -126,11 +129,11 @@ Proof.
 Qed.
 
 (* ---------- EnableInserter ---------- *)
-Theorem C03_enable_inserter_spec_partial tab ss c rst st : shape_of c = Sh 1 false ->
+Theorem C03_enable_inserter_process tab ss c rst st : shape_of c = Sh 1 false ->
   forall i, s_next (sync_process tab [ctl_switch c ss] rst st) i
           = s_next (sync_ctl tab ss rst (ctl_on (s_curr st) c) false st) i.
 Proof. exact (enable_process tab ss c rst st). Qed.
-Print Assumptions C03_enable_inserter_spec_partial.
+Print Assumptions C03_enable_inserter_process.
 
 (* enable low, the domain's own reset low: no state of the process changes — whatever is inside, inserted resets included *)
 Theorem C03_enable_inside_reset tab ss e r rst st :
@@ -165,19 +168,19 @@ Qed.
 Print Assumptions C03_reset_outside_enable.
 
 (* ---------- stacks of inserters of one kind ---------- *)
-Theorem C03_inserters_compose_reset_partial tab cs ss rst st : tab_ok tab ->
+Theorem C03_inserters_compose_reset_process tab cs ss rst st : tab_ok tab ->
   Forall (fun c => shape_of c = Sh 1 false) cs -> collector_ok_n tab cs ss ->
   forall i, s_next (sync_process tab (reset_n tab cs ss) rst st) i
           = s_next (sync_ctl tab ss rst true (existsb (ctl_on (s_curr st)) cs) st) i.
 Proof. exact (reset_n_process tab cs ss rst st). Qed.
-Print Assumptions C03_inserters_compose_reset_partial.
+Print Assumptions C03_inserters_compose_reset_process.
 
-Theorem C03_inserters_compose_enable_partial tab cs ss rst st :
+Theorem C03_inserters_compose_enable_process tab cs ss rst st :
   Forall (fun c => shape_of c = Sh 1 false) cs ->
   forall i, s_next (sync_process tab (enable_n cs ss) rst st) i
           = s_next (sync_ctl tab ss rst (forallb (ctl_on (s_curr st)) cs) false st) i.
 Proof. exact (enable_n_process tab cs ss rst st). Qed.
-Print Assumptions C03_inserters_compose_enable_partial.
+Print Assumptions C03_inserters_compose_enable_process.
 
 (* the control `a | b` (`a & b`) is asserted exactly when one (both) of the one-bit controls is *)
 Theorem C03_or_and_controls curr a b : shape_of a = Sh 1 false -> shape_of b = Sh 1 false ->
@@ -209,3 +212,136 @@ Example C03_domain_renamer_hyps :
   (forall p, In p (g_procs ex_D) -> (rename_dom rho (fst p) = 0%nat <-> fst p = 0%nat)) /\
   rename_entries rho [(1%nat, ex_ss)] = [(2%nat, ex_ss)].
 Proof. split; [|reflexivity]. intros p [<-|[]]. simpl. split; discriminate. Qed.
+
+(* ================= whole traces: refinement of the original design with explicit controls ================= *)
+(* the inserters on a fragment tree rewrite every process of the flattened design *)
+Theorem C03_inserters_map_processes tab doms ctl f n :
+  mk_design tab doms (reset_inserter tab ctl f) n = map_procs (reset_entry tab ctl) (mk_design tab doms f n) /\
+  mk_design tab doms (enable_inserter ctl f) n = map_procs (enable_entry ctl) (mk_design tab doms f n).
+Proof. split; [apply mk_design_reset|apply mk_design_enable]. Qed.
+Print Assumptions C03_inserters_map_processes.
+
+(* ResetInserter: over every event sequence the wrapped design is the original one run with the extra reset `ctl d`
+   on the sync processes of every named domain d — every signal (other domains, comb) included *)
+Theorem C03_reset_inserter_spec D ctl : tab_ok (g_tab D) -> ctl_ok ctl ->
+  (forall p, In p (g_procs D) -> fst p <> 0%nat -> lookup (fst p) ctl <> None -> collector_ok (g_tab D) (snd p)) ->
+  forall evs cur cur', eqe cur cur' ->
+  eqe (state_after (step (map_procs (reset_entry (g_tab D) ctl) D)) evs cur)
+      (state_after (step_ctl (fun _ _ => true) (ctl_of ctl false) D) evs cur').
+Proof. exact (reset_inserter_refines D ctl). Qed.
+Print Assumptions C03_reset_inserter_spec.
+
+Theorem C03_enable_inserter_spec D ctl : ctl_ok ctl ->
+  forall evs cur cur', eqe cur cur' ->
+  eqe (state_after (step (map_procs (enable_entry ctl) D)) evs cur)
+      (state_after (step_ctl (ctl_of ctl true) (fun _ _ => false) D) evs cur').
+Proof. exact (enable_inserter_refines D ctl). Qed.
+Print Assumptions C03_enable_inserter_spec.
+
+(* the spec run with idle controls is the run of the design itself *)
+Theorem C03_spec_run_idle_is_design D evs cur cur' : eqe cur cur' ->
+  eqe (state_after (step D) evs cur) (state_after (step_ctl (fun _ _ => true) (fun _ _ => false) D) evs cur').
+Proof. exact (step_ctl_plain D evs cur cur'). Qed.
+Print Assumptions C03_spec_run_idle_is_design.
+
+Definition ex_ctl : controls := [(1%nat, ESig 4 (Sh 1 false))].
+Example C03_refinement_hyps : tab_ok (g_tab ex_D) /\ ctl_ok ex_ctl /\
+  (forall p, In p (g_procs ex_D) -> fst p <> 0%nat -> lookup (fst p) ex_ctl <> None -> collector_ok (g_tab ex_D) (snd p)) /\
+  state_after (step (map_procs (reset_entry ex_tab ex_ctl) ex_D)) [[(0%nat, 1)]; [(4%nat, 1)]; [(0%nat, 0)]; [(0%nat, 1)]] zero_env 2%nat = 3 /\
+  state_after (step ex_D) [[(0%nat, 1)]; [(4%nat, 1)]; [(0%nat, 0)]; [(0%nat, 1)]] zero_env 2%nat = 2.
+Proof.
+  destruct C03_reset_inserter_hyps as [Ht [Hk _]]. split; [exact Ht|]. split; [|split; [|split; vm_compute; reflexivity]].
+  - intros d c. unfold lookup, ex_ctl. cbn [find fst snd]. destruct (Nat.eqb 1 d); intros H; inversion H. reflexivity.
+  - intros p [<-|[]] _ _. exact Hk.
+Qed.
+
+(* after ANY event prefix: an own-domain edge with the inserted reset high loads the init bit into every
+   non-reset-less register bit of a named domain ... *)
+Theorem C03_reset_inserter_trace_loads_init D ctl pre e cur0 p c i b : tab_ok (g_tab D) -> ctl_ok ctl ->
+  (forall q, In q (g_procs D) -> fst q <> 0%nat -> lookup (fst q) ctl <> None -> collector_ok (g_tab D) (snd q)) ->
+  let D' := map_procs (reset_entry (g_tab D) ctl) D in
+  let s := state_after (step D') pre cur0 in
+  0 <= b -> sole_driver D p i b -> fst p <> 0%nat -> lookup (fst p) ctl = Some c ->
+  Z.testbit (um (g_tab D) (snd p) i) b = true -> sd_reset_less (g_tab D i) = false ->
+  fired (g_doms D (fst p)) s (apply_writes e s) = true ->
+  ctl_on (apply_writes e s) c = true ->
+  Z.testbit (state_after (step D') (pre ++ [e]) cur0 i) b = Z.testbit (sd_init (g_tab D i)) b.
+Proof. intros Ht Hc. exact (reset_inserter_trace_loads_init D ctl Ht Hc pre e cur0 p c i b). Qed.
+Print Assumptions C03_reset_inserter_trace_loads_init.
+
+(* ... with the inserted enable low (own reset low) every register bit of a named domain keeps its value ... *)
+Theorem C03_enable_inserter_trace_keeps D ctl pre e cur0 p c i b : ctl_ok ctl ->
+  let D' := map_procs (enable_entry ctl) D in
+  let s := state_after (step D') pre cur0 in
+  0 <= b -> sole_driver D p i b -> fst p <> 0%nat -> lookup (fst p) ctl = Some c -> ~ In i (map fst e) ->
+  ctl_on (apply_writes e s) c = false ->
+  match d_rst (g_doms D (fst p)) with Some r => Z.land 1 (apply_writes e s r) = 0 | None => True end ->
+  Z.testbit (state_after (step D') (pre ++ [e]) cur0 i) b = Z.testbit (s i) b.
+Proof. intros Hc. exact (enable_inserter_trace_keeps D ctl Hc pre e cur0 p c i b). Qed.
+Print Assumptions C03_enable_inserter_trace_keeps.
+
+(* ... and in the spec run a process whose controls are idle (or a reset-less register under an inserted reset)
+   computes exactly what the original process computes from the same committed inputs: reset-less registers and
+   the registers of all other domains follow the un-transformed design *)
+Theorem C03_idle_controls_follow_original D en_of rs_of e cur p i b : 0 <= b -> sole_driver D p i b -> fst p <> 0%nat ->
+  (forall d a a', eqe a a' -> rs_of d a = rs_of d a') -> (forall d a a', eqe a a' -> en_of d a = en_of d a') ->
+  en_of (fst p) (apply_writes e cur) = true ->
+  rs_of (fst p) (apply_writes e cur) = false \/ sd_reset_less (g_tab D i) = true ->
+  exists st, s_curr st = freeze (g_nsig D) (apply_writes e cur) /\
+    Z.testbit (s_next st i) b = Z.testbit (apply_writes e cur i) b /\
+    Z.testbit (step_ctl en_of rs_of D e cur i) b
+    = Z.testbit (s_next (sync_code (g_tab D) (snd p) (g_doms D (fst p)) cur (apply_writes e cur) st) i) b.
+Proof. exact (ctl_idle_is_original D en_of rs_of e cur p i b). Qed.
+Print Assumptions C03_idle_controls_follow_original.
+
+(* n inserters of one kind and ONE inserter whose control is their OR (AND) refine the same spec run, hence have
+   the same trace over every event sequence *)
+Theorem C03_inserters_compose D c cs : tab_ok (g_tab D) -> shape_of c = Sh 1 false ->
+  Forall (fun c => shape_of c = Sh 1 false) cs ->
+  (forall p, In p (g_procs D) -> fst p <> 0%nat -> collector_ok (g_tab D) (snd p) /\ collector_ok_n (g_tab D) cs (snd p)) ->
+  forall evs cur,
+  ((forall curr, ctl_on curr c = existsb (ctl_on curr) cs) ->
+   eqe (state_after (step (map_procs (stack_entry (reset_n (g_tab D) cs)) D)) evs cur)
+       (state_after (step (map_procs (stack_entry (reset_n (g_tab D) [c])) D)) evs cur)) /\
+  ((forall curr, ctl_on curr c = forallb (ctl_on curr) cs) ->
+   eqe (state_after (step (map_procs (stack_entry (enable_n cs)) D)) evs cur)
+       (state_after (step (map_procs (stack_entry (enable_n [c])) D)) evs cur)).
+Proof.
+  intros Ht Hc Hcs Hk evs cur. split; intros Hor.
+  - eapply eqe_trans.
+    + apply (reset_stack_refines D cs Ht Hcs (fun p Hp Hn => proj2 (Hk p Hp Hn)) evs cur cur (eqe_refl cur)).
+    + apply eqe_sym. apply (reset_or_refines D c cs Ht Hc Hor (fun p Hp Hn => proj1 (Hk p Hp Hn)) evs cur cur (eqe_refl cur)).
+  - eapply eqe_trans.
+    + apply (enable_stack_refines D cs Hcs evs cur cur (eqe_refl cur)).
+    + apply eqe_sym. apply (enable_and_refines D c cs Hc Hor evs cur cur (eqe_refl cur)).
+Qed.
+Print Assumptions C03_inserters_compose.
+
+(* ================= memories under the inserters (one activation of a memory process) ================= *)
+(* ResetInserter leaves every memory instance of the hierarchy untouched; EnableInserter rewrites the ports *)
+Theorem C03_inserters_on_memories tab ctl f :
+  frag_mems (reset_inserter tab ctl f) = frag_mems f /\
+  frag_mems (enable_inserter ctl f) = map (enable_mem ctl) (frag_mems f).
+Proof. split; [apply frag_mems_reset|apply frag_mems_enable]. Qed.
+Print Assumptions C03_inserters_on_memories.
+
+(* enable of domain d low at an edge of d: the rows of the memory and every sync read-data register of d keep
+   their values (write enables read as 0, read enables read as 0) *)
+Theorem C03_enable_freezes_memory tab ctl m d c rw st :
+  lookup d ctl = Some c -> shape_of c = Sh 1 false -> ctl_on (s_curr st) c = false ->
+  sgn (mi_shape m) = false ->
+  (forall p, In p (mi_wports m) -> 0 <= ewidth (wp_en p)) ->
+  (forall p, In p (mi_rports m) -> rp_dom p = d -> shape_of (rp_en p) = Sh 1 false) ->
+  let r := mem_sync tab (enable_mem ctl m) d rw (st, []) in
+  mem_commit rw (snd r) = rw /\ forall i, s_next (fst r) i = s_next st i.
+Proof. exact (enable_mem_sync_frozen tab ctl m d c rw st). Qed.
+Print Assumptions C03_enable_freezes_memory.
+
+Example C03_enable_freezes_memory_hyps :
+  let m := MI (Sh 4 false) 2 [5] [WP 1 (ESig 5 (Sh 1 false)) (ESig 6 s4) (ESig 7 (Sh 1 false))]
+              [RP 1 (ESig 5 (Sh 1 false)) (ESig 2 s4) (ESig 8 (Sh 1 false)) [0%nat]] in
+  let st := {| s_curr := fun i => match i with 4%nat => 0 | _ => 1 end; s_next := zero_env |} in
+  lookup 1%nat ex_ctl = Some (ESig 4 (Sh 1 false)) /\ ctl_on (s_curr st) (ESig 4 (Sh 1 false)) = false /\
+  mem_commit [5; 0] (snd (mem_sync ex_tab m 1%nat [5; 0] (st, []))) = [5; 1] /\
+  mem_commit [5; 0] (snd (mem_sync ex_tab (enable_mem ex_ctl m) 1%nat [5; 0] (st, []))) = [5; 0].
+Proof. repeat split; vm_compute; reflexivity. Qed.
